@@ -30,6 +30,9 @@ pub struct ZBlock {
   pub imp: u8,
   pub i: u32,
   pub nj: u32,
+  /// the row is j = (0..nj) << jshift (masked to 29 bits)
+  #[serde(default)]
+  pub jshift: u8,
 }
 
 #[derive(Clone, Debug, Serialize, Deserialize)]
@@ -41,7 +44,7 @@ pub struct Uq {
 pub fn meta() -> PropMeta {
   PropMeta {
     id: "C18",
-    rule: "z-order: every implementation reachable through get_zoc(depth) in this build (LUT in the default build, BMI2 in the +bmi2 build) plus the public LARGE_ZOC_LUT / LARGE_ZOC_XOR statics; small class: all 65 536 (i,j) and all 65 536 h; medium class: whole rows (one i, all 65 536 j) -- every i in the thorough tier, i.e. all 2^32 pairs; large class: byte-wise exhaustive / walking bits / random (i,j) < 2^29; uniq: all depths x {0,1,n_hash-1, 4^k+-1, random}; non-trivial = a pair with i != 0 and j != 0 (both coordinates contribute bits), an h with bits on both even and odd positions, or a uniq case with hash >= 2; distinct by (implementation, i, j) / (depth, hash)",
+    rule: "z-order: every implementation reachable through get_zoc(depth) in this build (LUT in the default build, BMI2 in the +bmi2 build) plus the public LARGE_ZOC_LUT / LARGE_ZOC_XOR statics; small class: all 65 536 (i,j) and all 65 536 h; medium class: whole rows (one i, all 65 536 j) -- every i in the thorough tier, i.e. all 2^32 pairs; large class: byte-wise exhaustive rows (each byte of i x 4096 values of j at bit offsets 0 / 8 / 16 / 17) / walking bits / random (i,j) < 2^29; get_zoc(depth) for every depth 0..=29 with coordinates below 2^depth (depth 0 = the empty curve); xy2h (floating point entry point) = ij2h of the truncated coordinates for every pair; uniq: all depths x {0,1,n_hash-1, 4^k+-1, random}; non-trivial = a pair with i != 0 and j != 0 (both coordinates contribute bits), an h with bits on both even and odd positions, or a uniq case with hash >= 2; distinct by (implementation, i, j) / (depth, hash)",
     assumptions: vec!["reference = bit-by-bit interleave loop of the harness".into(), "the BMI2 implementations are only exercised in the +bmi2 build (the crate selects them at compile time); CPU of this sandbox has BMI2".into()],
   }
 }
@@ -106,7 +109,7 @@ pub fn check_block(c: &ZBlock, rec: &mut Rec) -> Result<(), Violation> {
   rec.sample(|| json!(c));
   let r = catch(|| {
     for j in 0..c.nj {
-      check_pair(z, c.imp, c.i, j)?;
+      check_pair(z, c.imp, c.i, (j << c.jshift) & 0x1FFF_FFFF)?;
     }
     Ok(())
   });
@@ -183,6 +186,9 @@ pub fn check_uniq(c: &Uq, rec: &mut Rec) -> Result<(), Violation> {
 }
 
 fn interesting_u32(max_bits: u32) -> BoxedStrategy<u32> {
+  if max_bits == 0 {
+    return Just(0u32).boxed();
+  }
   let mask = if max_bits >= 32 { u32::MAX } else { (1u32 << max_bits) - 1 };
   prop_oneof![
     3 => any::<u32>().prop_map(move |v| v & mask),
@@ -225,13 +231,13 @@ pub fn run(ctx: &Ctx, rep: &mut Report) {
   let thorough = ctx.tier == Tier::Thorough;
   // small class: all pairs and all hashes, for both ends of the class
   for d in [1u8, 8] {
-    ctx.run_enum(rep, &format!("small_pairs_d{}", d), 256, |i| ZBlock { imp: d, i: i as u32, nj: 256 }, check_block);
+    ctx.run_enum(rep, &format!("small_pairs_d{}", d), 256, |i| ZBlock { imp: d, i: i as u32, nj: 256, jshift: 0 }, check_block);
   }
   ctx.run_enum(rep, "small_hashes", 1 << 16, |h| Zh { imp: 8, h }, check_zh);
   // medium class: rows
   if thorough {
-    ctx.run_enum(rep, "medium_all_pairs_d16", 1 << 16, |i| ZBlock { imp: 16, i: i as u32, nj: 1 << 16 }, check_block);
-    ctx.run_enum(rep, "medium_rows_d9", 512, |i| ZBlock { imp: 9, i: i as u32, nj: 512 }, check_block);
+    ctx.run_enum(rep, "medium_all_pairs_d16", 1 << 16, |i| ZBlock { imp: 16, i: i as u32, nj: 1 << 16, jshift: 0 }, check_block);
+    ctx.run_enum(rep, "medium_rows_d9", 512, |i| ZBlock { imp: 9, i: i as u32, nj: 512, jshift: 0 }, check_block);
   } else {
     // every value of each byte of i, the other byte taken from a fixed pattern: 1024 rows x 65 536 j
     ctx.run_enum(
@@ -242,7 +248,7 @@ pub fn run(ctx: &Ctx, rep: &mut Report) {
         let (pos, byte, alt) = ((k >> 9) & 1, k & 0xFF, (k >> 8) & 1);
         let other = if alt == 1 { 0xA5u32 } else { 0u32 };
         let i = if pos == 0 { (other << 8) | byte as u32 } else { ((byte as u32) << 8) | other };
-        ZBlock { imp: 16, i, nj: 1 << 16 }
+        ZBlock { imp: 16, i, nj: 1 << 16, jshift: 0 }
       },
       check_block,
     );
@@ -256,13 +262,22 @@ pub fn run(ctx: &Ctx, rep: &mut Report) {
   ctx.run_enum(
     rep,
     "large_bytewise",
-    4 * 256 * 4,
+    4 * 256 * 4 * 4,
     |k| {
+      let (js, k) = (k / 4096, k % 4096);
       let (imp_k, pos, byte) = (k / 1024, (k / 256) % 4, k % 256);
       let imp = [17u8, 29, 100, 101][imp_k as usize];
-      ZBlock { imp, i: (((byte as u32) << (8 * pos as u32)) & 0x1FFF_FFFF), nj: 1 << 12 }
+      ZBlock { imp, i: (((byte as u32) << (8 * pos as u32)) & 0x1FFF_FFFF), nj: 1 << 12, jshift: [0u8, 8, 16, 17][js as usize] }
     },
     check_block,
+  );
+  // every depth 0..=29 through get_zoc(depth), coordinates below 2^depth (depth 0: the empty curve)
+  ctx.run_random(
+    rep,
+    "every_depth_pairs",
+    || (0u8..=29).prop_flat_map(|d| (interesting_u32(d as u32), interesting_u32(d as u32)).prop_map(move |(i, j)| Zc { imp: d, i, j })).boxed(),
+    ctx.tier.pick(600_000, 30_000_000),
+    check_zc,
   );
   ctx.run_random(rep, "uniq", strat_uniq, ctx.tier.pick(2_000_000, 100_000_000), check_uniq);
 }
@@ -272,7 +287,7 @@ pub fn replay(ctx: &Ctx, rep: &mut Report, section: &str, case: &Value) -> Resul
     ctx.run_one(rep, section, &super::de::<Uq>(case)?, check_uniq);
   } else if section.ends_with("hashes") {
     ctx.run_one(rep, section, &super::de::<Zh>(case)?, check_zh);
-  } else if section == "large_pairs" {
+  } else if section == "large_pairs" || section == "every_depth_pairs" {
     ctx.run_one(rep, section, &super::de::<Zc>(case)?, check_zc);
   } else {
     ctx.run_one(rep, section, &super::de::<ZBlock>(case)?, check_block);
